@@ -219,10 +219,10 @@ pub struct Case {
 // ------------------------------------------------------------------------------------------------
 // generators
 
-fn int_key(wide: bool) -> BoxedStrategy<Val> {
+fn int_key(wide: bool, nullw: u32) -> BoxedStrategy<Val> {
     let ext: Vec<i64> = if wide { vec![i64::MIN, i64::MAX, i64::MIN + 1, i64::MAX - 1] } else { vec![i32::MIN as i64, i32::MAX as i64, i32::MIN as i64 + 1, i32::MAX as i64 - 1] };
     prop_oneof![
-        3 => Just(Val::Null),
+        nullw => Just(Val::Null),
         12 => (0i64..5).prop_map(Val::I),
         3 => prop::sample::select(vec![5i64, 7, 100, -1, -3, 1000, 40000]).prop_map(Val::I),
         1 => prop::sample::select(ext).prop_map(Val::I),
@@ -230,21 +230,21 @@ fn int_key(wide: bool) -> BoxedStrategy<Val> {
     .boxed()
 }
 
-fn str_key() -> BoxedStrategy<Val> {
+fn str_key(nullw: u32) -> BoxedStrategy<Val> {
     prop_oneof![
-        3 => Just(Val::Null),
+        nullw => Just(Val::Null),
         14 => prop::sample::select(vec!["", "a", "b", "ab", "ba", "A", "é", "a long string beyond twelve bytes", "a long string beyond twelve byteS"]).prop_map(|s| Val::S(s.to_string())),
     ]
     .boxed()
 }
 
-fn key_vals(kind: KeyKind) -> BoxedStrategy<Vec<Val>> {
+fn key_vals(kind: KeyKind, nullw: u32) -> BoxedStrategy<Vec<Val>> {
     match kind {
-        KeyKind::I32 => int_key(false).prop_map(|v| vec![v]).boxed(),
-        KeyKind::I64 => int_key(true).prop_map(|v| vec![v]).boxed(),
-        KeyKind::Utf8 | KeyKind::LargeUtf8 | KeyKind::Utf8View => str_key().prop_map(|v| vec![v]).boxed(),
-        KeyKind::I32Utf8 => (int_key(false), str_key()).prop_map(|(a, b)| vec![a, b]).boxed(),
-        KeyKind::I64I32 => (int_key(true), int_key(false)).prop_map(|(a, b)| vec![a, b]).boxed(),
+        KeyKind::I32 => int_key(false, nullw).prop_map(|v| vec![v]).boxed(),
+        KeyKind::I64 => int_key(true, nullw).prop_map(|v| vec![v]).boxed(),
+        KeyKind::Utf8 | KeyKind::LargeUtf8 | KeyKind::Utf8View => str_key(nullw).prop_map(|v| vec![v]).boxed(),
+        KeyKind::I32Utf8 => (int_key(false, nullw), str_key(nullw)).prop_map(|(a, b)| vec![a, b]).boxed(),
+        KeyKind::I64I32 => (int_key(true, nullw), int_key(false, nullw)).prop_map(|(a, b)| vec![a, b]).boxed(),
     }
 }
 
@@ -252,10 +252,11 @@ fn payload() -> BoxedStrategy<Val> {
     prop_oneof![2 => Just(Val::Null), 11 => (-2i64..7).prop_map(Val::I)].boxed()
 }
 
-fn side(kind: KeyKind, max_rows: usize) -> BoxedStrategy<SideSpec> {
+/// `nullw` = weight of NULL among key values (0 = no NULL keys at all in this side)
+fn side(kind: KeyKind, max_rows: usize, nullw: u32) -> BoxedStrategy<SideSpec> {
     let rows = prop_oneof![
         1 => Just(vec![]),
-        12 => prop::collection::vec((key_vals(kind), payload()).prop_map(|(k, x)| RowSpec { k, x }), 1..=max_rows),
+        12 => prop::collection::vec((key_vals(kind, nullw), payload()).prop_map(|(k, x)| RowSpec { k, x }), 1..=max_rows),
     ];
     (rows, prop::collection::vec(any::<u16>(), 0..4), 1u8..=3, prop::collection::vec(0u8..3, 0..3)).prop_map(|(rows, cuts, parts, pend)| SideSpec { rows, cuts, parts, pend }).boxed()
 }
@@ -294,8 +295,8 @@ fn op_strategy() -> BoxedStrategy<Op> {
 fn case_strategy(tier: Tier) -> BoxedStrategy<Case> {
     let max_rows = tier.pick(10usize, 32usize);
     let kind = prop::sample::select(vec![KeyKind::I32, KeyKind::I32, KeyKind::I64, KeyKind::Utf8, KeyKind::LargeUtf8, KeyKind::Utf8View, KeyKind::I32Utf8, KeyKind::I64I32]);
-    (op_strategy(), kind)
-        .prop_flat_map(move |(op, kind)| {
+    (op_strategy(), kind, prop::sample::select(vec![0u32, 0, 1, 4]))
+        .prop_flat_map(move |(op, kind, nullw)| {
             // shape the choice lists per operator (construction, not rejection)
             let kind = match (op, kind) {
                 (Op::HashNullAware, KeyKind::I32Utf8) => KeyKind::I32,
@@ -324,7 +325,7 @@ fn case_strategy(tier: Tier) -> BoxedStrategy<Case> {
                 ]
                 .boxed(),
             };
-            let core = (prop::sample::select(jts), any::<bool>(), side(kind, max_rows), side(kind, max_rows), filt, prop::sample::select(vec![1u16, 2, 3, 5, 8192, 8192]), any::<bool>(), 1u8..=4);
+            let core = (prop::sample::select(jts), any::<bool>(), side(kind, max_rows, nullw), side(kind, max_rows, nullw), filt, prop::sample::select(vec![1u16, 2, 3, 5, 8192, 8192]), any::<bool>(), 1u8..=4);
             let opts = (
                 prop::collection::vec((any::<bool>(), any::<bool>()), 2),
                 any::<bool>(),
@@ -964,7 +965,7 @@ impl Property for C05 {
         case_strategy(tier)
     }
     fn budget(&self, tier: Tier) -> Budget {
-        Budget::new(tier.pick(4_000, 400_000), tier.pick(8, 16)).min_nontrivial(tier.pick(500, 50_000)).case_timeout(60)
+        Budget::new(tier.pick(10_000, 400_000), tier.pick(8, 16)).min_nontrivial(tier.pick(1_500, 50_000)).case_timeout(60)
     }
     fn rule(&self) -> String {
         "two generated tables (0-10 rows quick / 0-32 thorough; NULL/duplicate/extreme keys, batch cuts, partitions, Pending jitter) x join operator x 10 join types x NullEquality x optional residual filter x batch size/config; \
